@@ -16,17 +16,16 @@ C0 == [api |-> "zone", zcls |-> "IN", zorigin |-> "example.", inc |-> "yes", inc
 MCCfgs == {C0, [C0 EXCEPT !.inc = "no"], [C0 EXCEPT !.dirs = <<"$INCLUDE", "$TTL">>], [C0 EXCEPT !.inc = "dflt", !.incDoc = "text"]}
 MCAlpha == G3 \cup {Soa(At, -1, 7), Soa(At, 5, 7), Txt(Rel("n1"), -1, "b"), TtlL(0), OriginL(Rel("s"))}
 MCAlphaGen == GenA \cup {Txt(Blank, -1, "k"), TtlL(5), OriginL(Rel("s")), IncL(Rel("s")), EndL}
-PolsAll == PoliciesOver({"incOwner", "incTtl", "incIn", "soaDef", "soaOwn", "incDflt"})
-PolsQuick == PoliciesOver({"incOwner", "incTtl", "incIn", "soaDef"})
+PolsAll == PoliciesOver({"blank0", "incOwner", "incTtl", "incIn", "soaDef", "soaOwn", "incDflt"})
+PolsQuick == PoliciesOver({"blank0", "incOwner", "incTtl", "incIn", "soaDef"})
 PolsGen == PoliciesOver({"incOwner", "incIn", "genOwner"})
 TtlValues == {0, 5, 7, 300}
 
-MCInit == /\ \E c \in Cfgs, p \in Pols : InitWith(c, p) /\ sh = Start(c) /\ inl = Start(c)
+MCInit == /\ \E c \in Cfgs, p \in Pols : InitWith(c, p) /\ sh = Start(c, p) /\ inl = Start(c, p)
           /\ marks = <<>> /\ ins = FALSE /\ clean = TRUE /\ stated = FALSE
 
 Ok(l) == /\ (l.k = "inc" => Len(stack) < MaxDepth)
          /\ (l.k = "end" => stack # <<>>)
-         /\ (l.k = "rr" /\ l.owner = Blank => stated)
 Line(l) ==
     /\ n < MaxLines /\ Ok(l) /\ Read(l)
     /\ marks' = CASE l.k = "inc" /\ status' = "ok" -> Append(marks, Frame(Cur))
